@@ -53,6 +53,8 @@ pub enum ApChangeError {
     BadMergeAllocatedLocalsMismatch(StatementIdx),
     #[error("Attempted to merge branches with different bases to align")]
     BadMergeBaseMismatch(StatementIdx),
+    #[error("The ap change of a branch is larger than the ap change required by its target")]
+    BadApChangeToTarget(StatementIdx),
     #[error("failed solving the ap changes")]
     SolvingApChangeEquationFailed,
 }
